@@ -162,7 +162,7 @@ func (w *World) Fail(prop, oracle, class, format string, a ...interface{}) {
 		simrt.Finish() // the verdict is in: end the run at the next scheduling point
 		return
 	}
-	w.O.Probe("other_property_oracle_fired:" + prop + ":" + oracle)
+	w.O.Probe("other_property_oracle_fired:" + prop + ":" + oracle + "/" + class + "/" + w.Cfg.Network)
 }
 
 // Failed reports whether the run already has its verdict.
